@@ -1631,6 +1631,44 @@ def configuration(repo, tier):
         if isinstance(e, ast.Call) and (dotted(e.func) or "").split(".")[-1] == "ZipBombLimits" and not e.args and not e.keywords:
             return "default"
         return ast.unparse(e)[:60]
+    def none_means_default(fnode, pname="limits"):
+        """True when `pname=None` stands for the default configuration in this function: the parameter is rebound only by
+        entry normalisations -- `if p is None: p = D`, `p = p or D`, `p = D if p is None else p`, `p = p if p is not None else D`
+        with D the default configuration -- which are top-level statements of the body, and no statement before the first
+        of them reads p.  (The configuration class has no __bool__/__len__: `p or D` tests for None.)"""
+        def is_p(e):
+            return isinstance(e, ast.Name) and e.id == pname
+
+        def is_none_test(t, negated=False):
+            return isinstance(t, ast.Compare) and len(t.ops) == 1 and isinstance(t.ops[0], ast.IsNot if negated else ast.Is) and is_p(t.left) \
+                and isinstance(t.comparators[0], ast.Constant) and t.comparators[0].value is None
+
+        def is_norm(st):
+            if isinstance(st, ast.If) and is_none_test(st.test) and not st.orelse and len(st.body) == 1:
+                a = st.body[0]
+                return isinstance(a, ast.Assign) and len(a.targets) == 1 and is_p(a.targets[0]) and limits_expr_kind(a.value) == "default"
+            if isinstance(st, ast.Assign) and len(st.targets) == 1 and is_p(st.targets[0]):
+                v = st.value
+                if isinstance(v, ast.BoolOp) and isinstance(v.op, ast.Or) and len(v.values) == 2 and is_p(v.values[0]):
+                    return limits_expr_kind(v.values[1]) == "default" and not (cls is not None and any(
+                        isinstance(n, ast.FunctionDef) and n.name in ("__bool__", "__len__") for n in cls.body))
+                if isinstance(v, ast.IfExp):
+                    if is_none_test(v.test) and is_p(v.orelse):
+                        return limits_expr_kind(v.body) == "default"
+                    if is_none_test(v.test, negated=True) and is_p(v.body):
+                        return limits_expr_kind(v.orelse) == "default"
+            return False
+        norms = [st for st in fnode.body if is_norm(st)]
+        if not norms:
+            return False
+        inside = {id(x) for st in norms for x in ast.walk(st)}
+        for n in own_nodes(fnode):
+            if isinstance(n, ast.Name) and n.id == pname and isinstance(n.ctx, (ast.Store, ast.Del)) and id(n) not in inside:
+                return False
+        for st in fnode.body[:fnode.body.index(norms[0])]:
+            if any(isinstance(x, ast.Name) and x.id == pname for x in ast.walk(st)):
+                return False
+        return True
     try:
         fields = {}
         for n in (cls.body if cls is not None else []):
@@ -1687,6 +1725,8 @@ def configuration(repo, tier):
                 emit(oid, "unknown", "no `limits` parameter with a default")
             elif limits_expr_kind(dflt) == "default":
                 emit(oid, "proved", ast.unparse(dflt))
+            elif isinstance(dflt, ast.Constant) and dflt.value is None and none_means_default(node):
+                emit(oid, "proved", "None, replaced by the default configuration on entry")
             else:
                 emit(oid, "unknown", f"default is `{limits_expr_kind(dflt)}`")
     except Exception as e:  # noqa
@@ -1708,7 +1748,7 @@ def configuration(repo, tier):
                 if star:
                     soft.append(f"{where}: arguments passed through * / **")
                 elif own:
-                    ok = isinstance(arg, ast.Name) and arg.id == "limits" and "limits" not in pkg.bindings(caller)
+                    ok = isinstance(arg, ast.Name) and arg.id == "limits" and ("limits" not in pkg.bindings(caller) or none_means_default(caller))
                     if not ok:
                         soft.append(f"{where}: the caller's own `limits` is not forwarded (passes {ast.unparse(arg)[:40] if arg is not None else 'nothing: the default'})")
                 elif arg is not None and limits_expr_kind(arg) != "default":
